@@ -380,6 +380,26 @@ const SLOTS: u64 = 72;
 const HISTORIES_QUICK: u64 = 600;
 const HISTORIES_THOROUGH: u64 = 20000;
 
+
+/// "large keyspace": a few hundred to a few thousand rows (documents of two origins, then a bulk
+/// delete of part of them) in one keyspace, so that the restart load works through more rows than
+/// any internal chunk or page holds
+fn large_keyspace_groups(rng: &mut rand::rngs::SmallRng, base_ms: u64, route: &str) -> Vec<Vec<Req>> {
+    let n = *[257u64, 300, 513, 700, 1_025, 1_500, 2_100].get(rng.gen_range(0..7)).unwrap() + rng.gen_range(0..40);
+    let (o1, o2) = (rng.gen_range(1..=3u8), rng.gen_range(4..=6u8));
+    let t0 = base_ms - 1_200_000;
+    let item = |id: u64, t: u64, node: u8| Item { id, t, c: 0, node };
+    let req = |kind: &str, items: Vec<Item>, source: usize| Req { kind: kind.to_string(), ks: "ks0".to_string(), route: route.to_string(), source, items, del_items: vec![], delay_ms: 0, give_up_after_polls: None };
+    let half = n / 2;
+    let step = rng.gen_range(2..=5u64);
+    vec![
+        vec![req("multi_set", (0..half).map(|i| item(i, t0 + 4 * i, o1)).collect(), 0)],
+        vec![req("multi_set", (half..n).map(|i| item(i, t0 + 4 * i, o2)).collect(), rng.gen_range(0..2))],
+        vec![req("multi_del", (0..n).filter(|i| i % step == 0).map(|i| item(i, t0 + 4 * n + 4 * i, if i % 2 == 0 { o1 } else { o2 })).collect(), 0)],
+        vec![req("set", vec![item(n + 1, base_ms - 10_000, o1)], 0)],
+    ]
+}
+
 fn history(seed: u64, h: u64) -> Scenario {
     let mut rng = rng_from(mix(mix(seed, 0xC07), h));
     let cfg = GenCfg {
@@ -414,7 +434,7 @@ impl Check for C07 {
         "E1 single-node engine: crash = the whole tokio runtime is dropped at the chosen instant (every task cancelled at its await point, in-flight storage call parked after a chosen durable prefix); restart = fresh runtime + KeyspaceGroup::load_states_from_storage on the surviving SimStorage"
     }
     fn rule(&self) -> &'static str {
-        "Cases: for each seeded request history (3-24 sequential set/multi_set/del/multi_del/batch/purge requests, 1-3 keyspaces, timestamps near now / hours old / future, occasional storage failure) EVERY crash point of the grid is taken: after request group g for g in 0..24, and inside mutating storage call n in 1..16 with 0, 1 or all of its writes durable (72 crash points per history); the enumeration is complete over that grid for the stated number of histories. Beyond the grid, seeded cases add a second crash after the first restart, and one case in 23 runs a history over real SQLite / LMDB files (origin node ids up to 255 in the persisted timestamps) with the node stopped between requests and restarted on the same files (clean stop, or kill: the files are imaged while the backend is still open and the next incarnation runs on the image). After restart: rebuilt set (Serialize, validated) == store rows for every keyspace the store lists; the rest of the history is then replayed with the C02 oracle after every request; every write of an acknowledged request is still in the store (or superseded / purged). Non-trivial = >= 2 storage writes and >= 1 stored row. Distinct = hash of (store state at crash, storage trace, crash position)."
+        "Cases: for each seeded request history (3-24 sequential set/multi_set/del/multi_del/batch/purge requests, 1-3 keyspaces, timestamps near now / hours old / future, occasional storage failure) EVERY crash point of the grid is taken: after request group g for g in 0..24, and inside mutating storage call n in 1..16 with 0, 1 or all of its writes durable (72 crash points per history); the enumeration is complete over that grid for the stated number of histories. Beyond the grid, seeded cases add a second crash after the first restart, one case in 41 puts a large keyspace in front of the history (257-2 140 rows of two origins written in two bulk calls, a bulk delete of every 2nd-5th, the stop after that; also one real-backend case in six), and one case in 23 runs a history over real SQLite / LMDB files (origin node ids up to 255 in the persisted timestamps) with the node stopped between requests and restarted on the same files (clean stop, or kill: the files are imaged while the backend is still open and the next incarnation runs on the image). After restart: rebuilt set (Serialize, validated) == store rows for every keyspace the store lists; the rest of the history is then replayed with the C02 oracle after every request; every write of an acknowledged request is still in the store (or superseded / purged). Non-trivial = >= 2 storage writes and >= 1 stored row. Distinct = hash of (store state at crash, storage trace, crash position)."
     }
     fn assumptions(&self) -> Vec<String> {
         vec![
@@ -461,6 +481,15 @@ impl Check for C07 {
             };
             let groups = rng.gen_range(3..=14);
             let events: Vec<Vec<Req>> = gen_history(&mut rng, groups, &cfg, 0.0).into_iter().map(|g| g.into_iter().map(|mut r| { r.route = "actor".into(); if r.kind == "idle_hour" { r.kind = "purge".into(); } r }).collect()).collect();
+            let mut events = events;
+            let mut groups = groups;
+            if rng.gen_bool(1.0 / 6.0) {
+                // a keyspace of many rows under the real backend (rows come back in key order)
+                let mut big = large_keyspace_groups(&mut rng, cfg.base_ms, "actor");
+                groups += big.len();
+                big.extend(events);
+                events = big;
+            }
             let stops: Vec<usize> = (0..rng.gen_range(1..=2)).map(|_| rng.gen_range(1..=groups)).collect();
             let sc = RealScenario { backend: if ordinal % 2 == 0 { "sqlite" } else { "lmdb" }.to_string(), base_ms: cfg.base_ms, events, stops, kill: rng.gen_bool(0.4) };
             return serde_json::json!({ "real": sc });
@@ -481,6 +510,18 @@ impl Check for C07 {
         }
         let mut rng = rng_from(case_seed(seed, idx));
         let mut sc = history(seed ^ 0x5EED, idx);
+        if mix(0x1A46E, idx) % 41 == 0 {
+            // large keyspace in front of the seeded history; the first stop falls after it
+            let mut big = large_keyspace_groups(&mut rng, sc.base_ms, "actor");
+            let nb = big.len();
+            big.extend(std::mem::take(&mut sc.events));
+            sc.events = big;
+            sc.store.faults.clear();
+            let g = sc.events.len();
+            sc.crash = Crash { after_group: Some(rng.gen_range(nb - 1..=g)), in_call: None };
+            sc.crash2 = if rng.gen_bool(0.5) { Some(Crash { after_group: Some(rng.gen_range(0..=g)), in_call: None }) } else { None };
+            return serde_json::to_value(sc).unwrap();
+        }
         let g = sc.events.len();
         let mk = |rng: &mut rand::rngs::SmallRng| {
             if rng.gen_bool(0.5) {
